@@ -170,6 +170,7 @@ OTHER = {"mul_frb", "exp", "exp_dig", "exp_cyc", "exp_cyc_sim", "exp_cyc_sps", "
          "srt", "conv_cyc", "test_cyc", "back_cyc", "back_cyc_sim", "pck", "upk", "pck_max", "upk_max", "cmp", "cmp_dig",
          "is_zero", "zero", "set_dig", "copy_sec"}
 # relative selection weight of a kind in the random phase (cheap arithmetic dominates, heavy model work is rare)
+GROUP = {"zero": "zero", "cyc": "cyclo", "uni": "cyclo", "ordr": "cyclo"}      # class -> group used in case keys
 HEAVY = {"exp": 0.35, "exp_cyc": 0.35, "exp_cyc_sim": 0.25, "exp_cyc_sps": 0.3, "exp_dig": 0.5, "srt": 0.5,
          "conv_cyc": 0.3, "inv_sim": 0.5, "back_cyc_sim": 0.5, "frb": 1.0}
 
@@ -481,7 +482,13 @@ def run_param(ctx, R, pname, nparams):
     hdr = T.hdr
     # ---- the list of entry points of each present degree
     flist = {}
-    not_built, uncovered, absent_tower = [], [], []
+    not_built, uncovered, absent_tower, outside = [], [], [], []
+    # Towers above fp3 are claimed for p = 1 (mod 6) only: the Frobenius constants of the sextic towers are defined as
+    # xi^((p-1)/6) (relic_fpx_field.c); on the plain primes with p = 2 (mod 3) the towers exist but lie outside that family.
+    if pname in PAIRING_PARTS or p % 6 == 1:
+        allowed = set(F)
+    else:
+        allowed = set(d for d in F if d <= 3)
     for d in sorted(hdr):
         names = set(hdr[d])
         for mname in R.macros:
@@ -499,13 +506,19 @@ def run_param(ctx, R, pname, nparams):
             if d not in F:
                 absent_tower.append(fn)
                 continue
-            if not (s in BIN or s in UN or s in CYC_UN or s in PCK_SQR or s in DXS or s in UNR or s in DIG or s in OTHER):
+            if not (s in BIN or s in UN or s in CYC_UN or s in PCK_SQR or s in DXS or s in UNR or s in DIG or s in OTHER) \
+                    or (s == "mul_frb" and d not in (2, 3, 4)) or s == "exp_cyc_gls":
                 uncovered.append(fn)
+                continue
+            if d not in allowed:
+                outside.append(fn)
                 continue
             flist.setdefault(d, []).append(s)
     ctx.note("functions_not_built", sorted(not_built))
     ctx.note("functions_without_generator", sorted(uncovered))
     ctx.note("functions_skipped_tower_absent_" + pname, sorted(absent_tower))
+    if outside:
+        ctx.note("functions_skipped_p_not_1_mod_6_" + pname, sorted(outside))
     ctx.note("dispatch", {m: R.target(m) for m in R.macros if re.match(r"^fp\d+_(add|sub|dbl|mul|sqr|mul_nor|mul_dxs|sqr_cyc|sqr_pck)$", m)
                           and R.has(m)})
 
@@ -526,6 +539,36 @@ def run_param(ctx, R, pname, nparams):
             excluded += ["fp54_" + s for s in flist[d] if s in FATAL_54]
             flist[d] = [s for s in flist[d] if s not in FATAL_54]
     ctx.note("functions_excluded_known_fatal", sorted(excluded))
+    # ---- phase K: one directed case per finding known on the unchanged tree (known_findings.jsonl), so that each
+    # finding is re-observed (or seen repaired) by every run independently of the random choices
+    KNOWN_DIRECTED = [
+        ("exp_dig", (8, 12, 16, 18, 24, 48), None, "CYC", dict(e=3)),
+        ("test_cyc", (12, 18, 24, 48), None, "zero", {}),
+        ("exp", (12, 18, 24, 48), None, "zero", dict(e=5)),
+        ("pck", (12, 18, 24, 48), None, "one", {}),
+        ("pck", (2,), "SM9_P256", "uni", {}),
+        ("frb", (16,), None, "rnd", dict(i=9)),
+        ("frb", (16,), "BN_P256", "rnd", dict(i=1)),
+        ("is_sqr", (16,), "BN_P256", "rnd", dict(square=True)),
+        ("frb", (48,), "SM9_P256", "rnd", dict(i=1)),
+        ("conv_cyc", (48,), "SM9_P256", "rnd", {}),
+        ("test_cyc", (48,), "SM9_P256", "cyc", dict(x=1)),
+        ("exp_cyc_sim", (12,), None, "ordr", dict(e12=(5, -7))),
+        ("exp_cyc_sim", (12,), None, "ordr", dict(e12=(-5, 7))),
+        ("back_cyc", (54,), None, "one", dict(keep=True)),
+    ]
+    k = 0
+    for s, degs, only, cls, force in KNOWN_DIRECTED:
+        for d in degs:
+            k += 1
+            if d not in flist or s not in flist[d] or (only and only != pname) or not ctx.mine(k):
+                continue
+            c = T.cyc_classes(d)[0] if cls == "CYC" else cls
+            if c == "ordr" and not T.r:
+                continue
+            H.force = dict(force)
+            H.case(d, s, c, 0, directed=True)
+            H.force = {}
     # ---- phase 1: every (function, class) pair once, split over the shards
     idx = 0
     for d in sorted(flist):
@@ -562,6 +605,7 @@ class Handlers(object):
         self.ctx = T.ctx
         self.rng = T.rng
         self.stats = {}
+        self.force = {}     # parameters fixed by a directed case (exponent, Frobenius power, ...)
 
     # ---------------------------------------------------------------- class lists
     def classes(self, d, s):
@@ -571,7 +615,7 @@ class Handlers(object):
         if s in ("pck", "upk", "pck_max", "upk_max"):
             return T.cyc_classes(d) + ["rnd"]
         if s in ("test_cyc",):
-            return T.cyc_classes(d) + ["rnd", "sub", "sparse", "basis"]
+            return T.cyc_classes(d) + ["rnd", "sub", "sparse", "basis", "zero"]
         if s in ("exp", "exp_dig"):
             return self.GEN + (T.cyc_classes(d) if T.has_cyc(d) else [])
         if s in ("inv", "inv_sim", "conv_cyc"):
@@ -594,6 +638,10 @@ class Handlers(object):
     def put(self, ptr, d, v):
         self.R.fpx_put(ptr, v)
 
+    def fk(self, key, what):
+        """failure key: case key | input class, alias and other case parameters | what disagreed @ parameter set"""
+        return "%s|%s|%s@%s" % (key, ",".join(self.tok), what, self.T.pname)
+
     def verdict(self, key, ptr, d, exp, idxs=None):
         """value + canonical form of an output"""
         R, ctx = self.R, self.ctx
@@ -604,23 +652,23 @@ class Handlers(object):
             ok = all(got[i] == exp[i] for i in idxs)
         if not ok:
             bad = [i for i in (idxs if idxs is not None else range(d)) if got[i] != exp[i]]
-            ctx.check(False, key + "|value", {"coefficients": bad[:12], "got": [hx(got[i]) for i in bad[:4]],
+            ctx.check(False, self.fk(key, "value"), {"coefficients": bad[:12], "got": [hx(got[i]) for i in bad[:4]],
                                               "exp": [hx(exp[i]) for i in bad[:4]]})
         else:
             ctx.check(True)
         if idxs is None:
-            ctx.check(canon, key + "|canonical", {"raw>=p": True})
+            ctx.check(canon, self.fk(key, "canonical"), {"raw>=p": True})
         else:
             cz = all(R.fp_get(ptr + i * R.fp_sz)[1] for i in idxs)
-            ctx.check(cz, key + "|canonical", {"raw>=p": True})
+            ctx.check(cz, self.fk(key, "canonical"), {"raw>=p": True})
         return ok
 
     def unchanged(self, key, ptr, n, before):
-        self.ctx.check(self.R.get(ptr, n) == before, key + "|input-modified")
+        self.ctx.check(self.R.get(ptr, n) == before, self.fk(key, "input-modified"))
 
     def noerr(self, key, res):
         if res.caught:
-            self.ctx.check(False, key + "|unexpected-error", {"err": res.err})
+            self.ctx.check(False, self.fk(key, "unexpected-error"), {"err": res.err})
             return False
         return True
 
@@ -703,8 +751,9 @@ class Handlers(object):
         sz = T.sz[d]
         a = T.flat(d, cls)
         ma = F.unflatten(a)
-        key = "%s|%s" % (fn, cls)
-        desc = {"set": T.pname, "a": [hx(x) for x in a]}
+        key = "%s|%s" % (fn, GROUP.get(cls, "gen"))
+        self.tok = [cls]
+        desc = {"set": T.pname, "cls": cls, "alias": alias, "a": [hx(x) for x in a]}
 
         # ------------------------------------------------------------ binary
         if s in BIN:
@@ -715,7 +764,7 @@ class Handlers(object):
                 b = T.complement(d, a)
             else:
                 b = T.flat(d, rng.choice(self.GEN))
-            key += "|alias%d" % alias
+            self.tok.append("a%d" % alias)
             desc["b"] = [hx(x) for x in b]
             if not ctx.begin(key, desc, nontrivial=any(a) or any(b)):
                 return
@@ -742,7 +791,7 @@ class Handlers(object):
         # ------------------------------------------------------------ unary
         if s in UN or s in CYC_UN:
             op = UN.get(s) or CYC_UN[s]
-            key += "|alias%d" % alias
+            self.tok.append("a%d" % alias)
             if op == "inv" and cls == "zero":
                 if not ctx.begin(key, desc, nontrivial=False):
                     return
@@ -786,7 +835,7 @@ class Handlers(object):
 
         # ------------------------------------------------------------ compressed squaring
         if s in PCK_SQR:
-            key += "|alias%d" % alias
+            self.tok.append("a%d" % alias)
             if not ctx.begin(key, desc):
                 return
             exp = F.flatten(F.mul(ma, ma))
@@ -822,7 +871,7 @@ class Handlers(object):
                 sel = path_range(d, (1, 0) if d == 16 else (2,))
                 if not any(b[i] for i in sel):
                     b[sel[0]] = rng.randrange(1, p)
-            key += "|shape%d|alias%d" % (shapes.index(shape), alias)
+            self.tok += ["shape%d" % shapes.index(shape), "a%d" % alias]
             desc["b"] = [hx(x) for x in b]
             if not ctx.begin(key, desc, nontrivial=any(a) and any(b)):
                 return
@@ -868,7 +917,7 @@ class Handlers(object):
                 t = int.from_bytes(R.get(DV + i * T.dvsz, n), "little")
                 if t % p != exp[i] * m2 % p:
                     bad.append(i)
-            ctx.check(not bad, key + "|value", {"coefficients": bad[:12]})
+            ctx.check(not bad, self.fk(key, "value"), {"coefficients": bad[:12]})
             self.unchanged(key, A, sz, ba)
             return
 
@@ -882,17 +931,17 @@ class Handlers(object):
                         a[rng.randrange(d)] = (a[0] + 1) % p if rng.random() < 0.5 else rng.randrange(p)
                     ma = F.unflatten(a)
                     desc["a"] = [hx(x) for x in a]
-                    key = "%s|%s" % (fn, "embedded")
+                    self.tok = ["embedded"]
                 desc["dig"] = hx(dg)
                 if not ctx.begin(key, desc):
                     return
                 self.put(A, d, a)
                 res = R.call(fn, A, dg)
                 e = T.EQ if a == [dg % p] + [0] * (d - 1) else T.NE
-                ctx.check(res.i == e and not res.caught, key + "|value", {"got": res.i, "exp": e})
+                ctx.check(res.i == e and not res.caught, self.fk(key, "value"), {"got": res.i, "exp": e})
                 return
             desc["dig"] = hx(dg)
-            key += "|alias%d" % alias
+            self.tok.append("a%d" % alias)
             if not ctx.begin(key, desc):
                 return
             if s == "set_dig":
@@ -946,7 +995,7 @@ class Handlers(object):
             return
         self.put(T.objs(d)["a"], d, a)
         res = R.call(fn, T.objs(d)["a"])
-        ctx.check(res.i == int(not any(a)) and not res.caught, key + "|value", {"got": res.i})
+        ctx.check(res.i == int(not any(a)) and not res.caught, self.fk(key, "value"), {"got": res.i})
 
     def h_cmp(self, d, fn, cls, alias, a, ma, key, desc):
         ctx, R, T, rng = self.ctx, self.R, self.T, self.rng
@@ -963,7 +1012,7 @@ class Handlers(object):
         else:
             b = T.flat(d, rng.choice(self.GEN))
             rel = "other"
-        key += "|" + rel
+        self.tok.append(rel)
         desc["b"] = [hx(x) for x in b]
         if not ctx.begin(key, desc):
             return
@@ -972,7 +1021,7 @@ class Handlers(object):
         pb = o["a"] if (rel == "equal" and rng.random() < 0.3) else o["b"]
         res = R.call(fn, o["a"], pb)
         e = T.EQ if a == b else T.NE
-        ctx.check(res.i == e and not res.caught, key + "|value", {"got": res.i, "exp": e})
+        ctx.check(res.i == e and not res.caught, self.fk(key, "value"), {"got": res.i, "exp": e})
 
     def h_zero(self, d, fn, cls, alias, a, ma, key, desc):
         ctx, R, T = self.ctx, self.R, self.T
@@ -989,7 +1038,7 @@ class Handlers(object):
         o = T.objs(d)
         b = T.flat(d, "rnd")
         bit = rng.randrange(2)
-        key += "|bit%d" % bit
+        self.tok.append("bit%d" % bit)
         if not ctx.begin(key, desc):
             return
         self.put(o["a"], d, a)
@@ -1006,9 +1055,9 @@ class Handlers(object):
         F = T.F[d]
         o = T.objs(d)
         i = rng.choice(list(range(d + 1)) * 3 + [d + 1, 2 * d, 2 * d + 1])
+        i = self.force.get("i", i)
         plain = rng.random() < {2: 0.3, 3: 0.3, 4: 0.1, 6: 0.1, 8: 0.04, 9: 0.04, 12: 0.02}.get(d, 0.0) and i <= d
-        pw = "0" if i == 0 else ("1" if i == 1 else ("deg" if i == d else ("half" if 2 * i == d else (">deg" if i > d else "mid"))))
-        key += "|pow-%s|alias%d" % (pw, alias)
+        self.tok += [("i%d" % i) if i <= d else "i>deg", "a%d" % alias]
         desc["i"] = i
         if not ctx.begin(key, desc, nontrivial=any(a)):
             return
@@ -1057,13 +1106,14 @@ class Handlers(object):
             else:
                 j = rng.randrange(1, 3)
                 cst = F.pow(nu, p // (9 * j))
-        elif d in (4, 8):
+        elif d == 4:
+            # (fp8_mul_frb / fp16_mul_frb: constants only meaningful for the k = 48 family; no independent meaning to test)
             i = 1
             j = rng.randrange(1, 4)
             cst = F.pow(F.gen(), j * ((p - 1) // 6))
         else:
             return
-        key += "|i%d,j%d|alias%d" % (i, j, alias)
+        self.tok += ["i%d" % i, "j%d" % j, "a%d" % alias]
         desc["ij"] = [i, j]
         if not ctx.begin(key, desc, nontrivial=any(a)):
             return
@@ -1082,7 +1132,7 @@ class Handlers(object):
         ctx, R, T = self.ctx, self.R, self.T
         F = T.F[d]
         o = T.objs(d)
-        key += "|%s|alias%d" % (ecls, alias)
+        self.tok += [ecls, "a%d" % alias]
         desc["e"] = hx(e)
         if e < 0 and not any(a):
             return
@@ -1098,16 +1148,18 @@ class Handlers(object):
         res = R.call(fn, pc, o["a"], T.bnk)
         if res.caught:
             # the signed-digit recoding buffers hold RLC_FP_BITS + 1 digits: longer exponents are rejected with an error
-            ctx.check(abs(e).bit_length() > T.fpbits, key + "|unexpected-error", {"err": res.err})
+            ctx.check(abs(e).bit_length() > T.fpbits, self.fk(key, "unexpected-error"), {"err": res.err})
             return
         self.verdict(key, pc, d, exp)
         if not alias:
             self.unchanged(key, o["a"], T.sz[d], ba)
         v = R.bn_get(T.bnk)
-        ctx.check(v[0] == e, key + "|input-modified")
+        ctx.check(v[0] == e, self.fk(key, "input-modified"))
 
     def h_exp(self, d, fn, cls, alias, a, ma, key, desc):
         e, ecls = self.exps(d)
+        if "e" in self.force:
+            e, ecls = self.force["e"], "small"
         self._exp_common(d, fn, a, ma, key, desc, alias, e, ecls)
 
     def h_exp_cyc(self, d, fn, cls, alias, a, ma, key, desc):
@@ -1119,8 +1171,11 @@ class Handlers(object):
         F = T.F[d]
         o = T.objs(d)
         e, ecls = self.exps(d, dig=True)
+        e = self.force.get("e", e)
         e &= (1 << 64) - 1
-        key += "|%s|alias%d" % (ecls, alias)
+        if e and (3 * e).bit_length() == e.bit_length() + 2:
+            ecls = "naf+1"          # the non-adjacent form is one digit longer than the binary expansion
+        self.tok += [ecls, "a%d" % alias]
         desc["e"] = hx(e)
         if not ctx.begin(key, desc, nontrivial=any(a), budget=300):
             return
@@ -1163,7 +1218,7 @@ class Handlers(object):
             e += (1 << abs(x)) * (-1 if x < 0 else 1)
         if sign == R.K["RLC_NEG"]:
             e = -e
-        key += "|%s|alias%d" % (mode, alias)
+        self.tok += [mode, "a%d" % alias]
         desc["sps"] = b
         desc["sign"] = sign
         if not ctx.begin(key, desc, budget=300):
@@ -1193,13 +1248,16 @@ class Handlers(object):
             a = T.flat(d, "ordr")
             ma = F.unflatten(a)
             b = T.flat(d, "ordr")
-            key = "%s|ordr" % fn
+            key = "%s|cyclo" % fn
+            self.tok = ["ordr"]
         else:
             b = T.flat(d, cls if cls != "one" else T.cyc_classes(d)[0])
         e1, c1 = self.exps(d)
         e2, c2 = self.exps(d)
+        if "e12" in self.force:
+            e1, e2 = self.force["e12"]
         sg = ("n" if e1 < 0 else ("z" if e1 == 0 else "p")) + ("n" if e2 < 0 else ("z" if e2 == 0 else "p"))
-        key += "|%s" % sg
+        self.tok.append(sg)
         desc.update({"a": [hx(x) for x in a], "b": [hx(x) for x in b], "e1": hx(e1), "e2": hx(e2)})
         if not ctx.begin(key, desc, budget=300):
             return
@@ -1212,7 +1270,7 @@ class Handlers(object):
         T.poison(o["c"], T.sz[d])
         res = R.call(fn, o["c"], o["a"], T.bnk, o["b"], T.bnk2)
         if res.caught:
-            ctx.check(max(abs(e1), abs(e2)).bit_length() > T.fpbits, key + "|unexpected-error", {"err": res.err})
+            ctx.check(max(abs(e1), abs(e2)).bit_length() > T.fpbits, self.fk(key, "unexpected-error"), {"err": res.err})
             return
         self.verdict(key, o["c"], d, exp)
 
@@ -1224,7 +1282,7 @@ class Handlers(object):
         n = rng.choice([1, 1, 2, 3, 6])      # n == 0: see fatal_inv_sim_n0
         els = [a] + [T.flat(d, rng.choice([c for c in self.GEN if c != "zero"])) for _ in range(5)]
         els = els[:n]
-        key += "|n%s|alias%d" % (n if n < 2 else "many", alias)
+        self.tok += ["n%s" % (n if n < 2 else "many"), "a%d" % alias]
         desc["n"] = n
         desc["els"] = [[hx(x) for x in e] for e in els[1:]]
         if not ctx.begin(key, desc, nontrivial=n > 0):
@@ -1243,20 +1301,20 @@ class Handlers(object):
         for i, e in enumerate(els):
             self.verdict(key, pc + i * sz, d, F.flatten(F.inv(F.unflatten(e))))
         # nothing beyond the n-th element is touched
-        ctx.check(R.get(pc + n * sz, (6 - n) * sz) == bytes([R.poison]) * ((6 - n) * sz), key + "|wrote-beyond-n")
+        ctx.check(R.get(pc + n * sz, (6 - n) * sz) == bytes([R.poison]) * ((6 - n) * sz), self.fk(key, "wrote-beyond-n"))
         if not alias:
-            ctx.check(R.get(AA, sz * 6) == before, key + "|input-modified")
+            ctx.check(R.get(AA, sz * 6) == before, self.fk(key, "input-modified"))
 
     # ---------------------------------------------------------------- square roots
     def h_is_sqr(self, d, fn, cls, alias, a, ma, key, desc):
         ctx, R, T, rng = self.ctx, self.R, self.T, self.rng
         F = T.F[d]
         o = T.objs(d)
-        if rng.random() < 0.4 and any(a):
+        if (rng.random() < 0.4 or self.force.get("square")) and any(a):
             ma = F.mul(ma, ma)
             a = F.flatten(ma)
             desc["a"] = [hx(x) for x in a]
-            key += "|square"
+            self.tok.append("square")
         if not ctx.begin(key, desc, nontrivial=any(a)):
             return
         self.put(o["a"], d, a)
@@ -1267,7 +1325,7 @@ class Handlers(object):
             ctx.add("is_sqr_of_zero_returns_%d" % res.i, 1)   # convention not documented: not judged
             return
         e = int(is_square(F, ma))
-        ctx.check(res.i == e, key + "|value", {"got": res.i, "exp": e})
+        ctx.check(res.i == e, self.fk(key, "value"), {"got": res.i, "exp": e})
 
     def h_srt(self, d, fn, cls, alias, a, ma, key, desc):
         ctx, R, T, rng = self.ctx, self.R, self.T, self.rng
@@ -1277,8 +1335,8 @@ class Handlers(object):
             ma = F.mul(ma, ma)
             a = F.flatten(ma)
             desc["a"] = [hx(x) for x in a]
-            key += "|square"
-        key += "|alias%d" % alias
+            self.tok.append("square")
+        self.tok.append("a%d" % alias)
         if not ctx.begin(key, desc, nontrivial=any(a)):
             return
         self.put(o["a"], d, a)
@@ -1289,19 +1347,19 @@ class Handlers(object):
         if not self.noerr(key, res):
             return
         e = int(is_square(F, ma))
-        ctx.check(res.i == e, key + "|flag", {"got": res.i, "exp": e})
+        ctx.check(res.i == e, self.fk(key, "flag"), {"got": res.i, "exp": e})
         if res.i == 1 and e == 1:
             got, canon = R.fpx_get(pc, d)
             rt = F.unflatten(got)
-            ctx.check(F.flatten(F.mul(rt, rt)) == a, key + "|value", {"root": [hx(x) for x in got[:4]]})
-            ctx.check(canon, key + "|canonical")
+            ctx.check(F.flatten(F.mul(rt, rt)) == a, self.fk(key, "value"), {"root": [hx(x) for x in got[:4]]})
+            ctx.check(canon, self.fk(key, "canonical"))
 
     # ---------------------------------------------------------------- cyclotomic subgroup
     def h_conv_cyc(self, d, fn, cls, alias, a, ma, key, desc):
         ctx, R, T = self.ctx, self.R, self.T
         F = T.F[d]
         o = T.objs(d)
-        key += "|alias%d" % alias
+        self.tok.append("a%d" % alias)
         if not ctx.begin(key, desc):
             return
         exp = F.flatten(T.easy_part(d, ma))
@@ -1318,21 +1376,19 @@ class Handlers(object):
         ctx, R, T, rng = self.ctx, self.R, self.T, self.rng
         F = T.F[d]
         o = T.objs(d)
-        if not any(a):
-            return
-        if cls in ("cyc", "uni", "ordr") and rng.random() < 0.3:
+        if cls in ("cyc", "uni", "ordr") and rng.random() < 0.3 and not self.force:
             # a near miss: one coefficient changed
             a = list(a)
             i = rng.randrange(d)
             a[i] = (a[i] + 1) % T.p
             ma = F.unflatten(a)
-            key += "|near-miss"
+            self.tok.append("near-miss")
             desc["a"] = [hx(x) for x in a]
         elif d in (12, 18, 24, 48, 54) and cls == "rnd" and rng.random() < 0.5:
             # unitary but not cyclotomic
             ma = T.unitary(d, ma)
             a = F.flatten(ma)
-            key += "|unitary-only"
+            self.tok.append("unitary-only")
             desc["a"] = [hx(x) for x in a]
         if not ctx.begin(key, desc):
             return
@@ -1345,7 +1401,7 @@ class Handlers(object):
         res = R.call(fn, o["a"])
         if not self.noerr(key, res):
             return
-        ctx.check(res.i == int(e), key + "|value", {"got": res.i, "exp": int(e)})
+        ctx.check(res.i == int(e), self.fk(key, "value"), {"got": res.i, "exp": int(e)})
 
     def _compressed(self, d, a, keep):
         """compressed form of the cyclotomic element a: g2..g5 kept; the rest kept (as the library's own callers leave
@@ -1358,8 +1414,8 @@ class Handlers(object):
     def h_back_cyc(self, d, fn, cls, alias, a, ma, key, desc):
         ctx, R, T, rng = self.ctx, self.R, self.T, self.rng
         o = T.objs(d)
-        keep = rng.random() < 0.5
-        key += "|%s|alias%d" % ("kept" if keep else "junk", alias)
+        keep = self.force.get("keep", rng.random() < 0.5)
+        self.tok += ["kept" if keep else "junk", "a%d" % alias]
         comp = self._compressed(d, a, keep)
         desc["compressed"] = [hx(x) for x in comp]
         if not ctx.begin(key, desc):
@@ -1379,7 +1435,7 @@ class Handlers(object):
         n = rng.choice([0, 1, 2, 3, 5])
         els = ([a] + [T.flat(d, rng.choice(T.cyc_classes(d))) for _ in range(4)])[:n]
         keep = rng.random() < 0.5
-        key += "|n%s|%s|alias%d" % (n if n < 2 else "many", "kept" if keep else "junk", alias)
+        self.tok += ["n%s" % (n if n < 2 else "many"), "kept" if keep else "junk", "a%d" % alias]
         desc["n"] = n
         if not ctx.begin(key, desc, nontrivial=n > 0):
             return
@@ -1395,7 +1451,7 @@ class Handlers(object):
             return
         for i, e in enumerate(els):
             self.verdict(key, pc + i * sz, d, e)
-        ctx.check(R.get(pc + n * sz, (6 - n) * sz) == bytes([R.poison]) * ((6 - n) * sz), key + "|wrote-beyond-n")
+        ctx.check(R.get(pc + n * sz, (6 - n) * sz) == bytes([R.poison]) * ((6 - n) * sz), self.fk(key, "wrote-beyond-n"))
 
     # ---------------------------------------------------------------- compression round trips
     def _roundtrip(self, d, fn_p, fn_u, a, key, desc, alias):
@@ -1407,16 +1463,20 @@ class Handlers(object):
         T.poison(o["c"], T.sz[d])
         T.poison(o["e"], T.sz[d])
         res = R.call(fn_p, o["c"], o["a"])
+        if res.caught and fn_p.endswith("pck_max") and a == [1] + [0] * (d - 1):
+            # torus compression (1 + a0)/a1 does not exist for the unit element: a rejection is not a violation
+            ctx.add("pck_max_of_one_rejected", 1)
+            return
         if not self.noerr(key, res):
             return
         got, canon = R.fpx_get(o["c"], d)
-        ctx.check(canon, key + "|canonical")
+        ctx.check(canon, self.fk(key, "canonical"))
         pu = o["c"] if alias else o["e"]
         res = R.call(fn_u, pu, o["c"])
         if not self.noerr(key, res):
             return
-        ctx.check(res.i == 1, key + "|flag", {"got": res.i})
-        self.verdict(key, pu, d, a)
+        if ctx.check(res.i == 1, self.fk(key, "flag"), {"got": res.i}):
+            self.verdict(key, pu, d, a)
 
     def _ambiguous(self, d, a, cls):
         """a dense element that the decompressor would take for a compressed one (format ambiguity, not judged)"""
@@ -1432,19 +1492,21 @@ class Handlers(object):
         if cls == "rnd":
             # not cyclotomic: left uncompressed; the decompressor recognises a compressed element by its zero blocks
             pass
-        self._roundtrip(d, fn, "fp%d_upk" % d, a, key + "|roundtrip|alias%d" % alias, desc, alias)
+        self.tok.append("a%d" % alias)
+        self._roundtrip(d, fn, "fp%d_upk" % d, a, key, desc, alias)
 
     def h_upk(self, d, fn, cls, alias, a, ma, key, desc):
         # exercised through the round trip of pck (counted under both names)
-        self.h_pck(d, "fp%d_pck" % d, cls, alias, a, ma, "fp%d_upk|%s" % (d, cls), desc)
+        self.h_pck(d, "fp%d_pck" % d, cls, alias, a, ma, key, desc)
 
     def h_pck_max(self, d, fn, cls, alias, a, ma, key, desc):
         if not self.R.has("fp%d_upk_max" % d):
             return
-        self._roundtrip(d, fn, "fp%d_upk_max" % d, a, key + "|roundtrip|alias%d" % alias, desc, alias)
+        self.tok.append("a%d" % alias)
+        self._roundtrip(d, fn, "fp%d_upk_max" % d, a, key, desc, alias)
 
     def h_upk_max(self, d, fn, cls, alias, a, ma, key, desc):
-        self.h_pck_max(d, "fp%d_pck_max" % d, cls, alias, a, ma, "fp%d_upk_max|%s" % (d, cls), desc)
+        self.h_pck_max(d, "fp%d_pck_max" % d, cls, alias, a, ma, key, desc)
 
     # ---------------------------------------------------------------- directed fatal classes
     def fatal_inv_sim_n0(self, d):
@@ -1460,7 +1522,8 @@ class Handlers(object):
             res = R.call("fp%d_inv_sim" % d, pc, pa, 0)
             R.free(pa)
             R.free(pc)
-            ctx.check(not res.caught, key + "|unexpected-error", {"err": res.err})
+            self.tok = ["n0"]
+            ctx.check(not res.caught, self.fk(key, "unexpected-error"), {"err": res.err})
         except MonitorViolation as e:
             ctx.fail(key + "|" + e.kind, e.detail)
         finally:
@@ -1475,6 +1538,7 @@ class Handlers(object):
             F = T.F[54]
             o = T.objs(54)
             a = T.flat(54, "rnd")
+            self.tok = ["rnd", "i1"]
             R.fpx_put(o["a"], a)
             res = R.call("fp54_frb", o["c"], o["a"], 1)
             if self.noerr(key, res):
